@@ -417,9 +417,9 @@ func VerifHarness_ImportKinds() {
 	kind := errors.VerifNdIntRange("kind", 0, 4)   // fn, global, type, trigger, templ
 	offer := errors.VerifNdIntRange("offer", 0, 3) // pub, private, absent, held as the module's own import
 	form := errors.VerifNdIntRange("form", 0, 1)   // single import, braced list
-	use := errors.VerifNdIntRange("use", 0, 1)     // imported only / used
+	use := errors.VerifNdIntRange("use", 0, 2)     // imported only / used / the entry also defines an item of that name itself
 	kinds := []string{"function", "global", "type", "trigger", "template"}
-	errors.VerifTag("case", fmt.Sprintf("%s offer=%s braced=%v used=%v", kinds[kind], []string{"pub", "private", "absent", "own-import"}[offer], form == 1, use == 1))
+	errors.VerifTag("case", fmt.Sprintf("%s offer=%s braced=%v use=%d", kinds[kind], []string{"pub", "private", "absent", "own-import"}[offer], form == 1, use))
 	lib := "fn main() { }\n"
 	pub := []string{"pub ", "", "", ""}[offer]
 	switch {
@@ -469,6 +469,14 @@ func VerifHarness_ImportKinds() {
 			extra = "$Dev = { b: int };\nimpl FooFeature with { light } for $Dev {\n  fn dim(self: $Dev, percent: int) -> bool { true }\n}\n"
 		}
 	}
+	if use == 2 {
+		// a definition of the entry module with the name of the import: a duplicate definition
+		if kind > 2 || offer != 0 {
+			errors.VerifReached("not-applicable")
+			return
+		}
+		extra = []string{"fn item() -> int { 5 }\n", "let item = 5;\n", "type item = str;\n"}[kind]
+	}
 	main := imp + extra + "fn main() {\n" + body + "}\n"
 	modules := map[string]string{"lib": lib, "deep": deep, "main": main}
 	verifDebug("program", main)
@@ -486,8 +494,11 @@ func VerifHarness_ImportKinds() {
 	if an.hasError {
 		errors.VerifTag("diag", an.describe())
 	}
-	if offer == 0 {
+	if offer == 0 && use != 2 {
 		errors.VerifAssert("public-item-imported", !an.hasError)
+	}
+	if use == 2 {
+		errors.VerifAssert("definition-with-the-name-of-an-import-is-diagnosed", an.hasError)
 	}
 	if offer == 1 || offer == 2 {
 		errors.VerifAssert("item-not-offered-is-diagnosed", an.hasError)
